@@ -125,6 +125,16 @@ type CoverDecl struct {
 	Pkg    string
 }
 
+// NoWholeStoreDecl: no module function assigns a whole value of the struct type
+// through a pointer (*p = v), except into an object it allocated itself. Closes
+// the one way of changing a library struct with unexported fields from outside
+// its package without calling one of its methods.
+type NoWholeStoreDecl struct {
+	Type  string
+	Props []string
+	Line  int
+}
+
 // WritesDecl: a field is assigned only inside the listed functions (and its
 // address never escapes) – justifies object invariants over that field.
 type WritesDecl struct {
@@ -211,6 +221,7 @@ type ContractDB struct {
 	ZeroGlobals    map[string][]string // "pkg.name" -> properties: never assigned, keeps its zero value
 	ConstGlobals   map[string][]string // "pkg.name" -> properties: assigned once in init with a fresh object
 	Writes         []*WritesDecl
+	NoWholeStore   []*NoWholeStoreDecl
 	Covers         []*CoverDecl
 	Funcs          map[string]*FuncContract
 	Specs          map[string]*SpecFn
@@ -227,7 +238,7 @@ type ContractDB struct {
 
 var clauseRe = regexp.MustCompile(`^(requires|ensures|invariant|assert)(\?)?(\[[^\]]*\])?(!!|!)?\s*(.*)$`)
 
-var topKeywords = map[string]bool{"guarded": true, "lockinv": true, "libkeeps": true, "frameset": true, "shared": true, "funcalias": true, "libframe": true, "enumerates": true, "callsites": true, "zeroglobal": true, "constglobal": true, "writes": true, "covers": true, "func": true, "ext": true, "iface": true, "spec": true, "ghost": true, "axiom": true, "sealed": true, "lemma": true, "pure": true, "class": true, "trusted": true}
+var topKeywords = map[string]bool{"guarded": true, "lockinv": true, "libkeeps": true, "frameset": true, "shared": true, "funcalias": true, "libframe": true, "enumerates": true, "callsites": true, "zeroglobal": true, "constglobal": true, "writes": true, "nowholestore": true, "covers": true, "func": true, "ext": true, "iface": true, "spec": true, "ghost": true, "axiom": true, "sealed": true, "lemma": true, "pure": true, "class": true, "trusted": true}
 var subKeywords = map[string]bool{"spawnset": true, "ghostset": true, "property": true, "flags": true, "requires": true, "ensures": true, "modifies": true, "loop": true, "let": true, "params": true}
 
 func firstWord(s string) string {
@@ -760,6 +771,17 @@ func (db *ContractDB) parseFile(path, pkg string) error {
 				}
 			}
 			db.Writes = append(db.Writes, wd)
+		case "nowholestore":
+			cur = nil
+			f := strings.Fields(rest)
+			if len(f) < 1 {
+				return fail(l, "nowholestore pkg.Type [@Cnn]")
+			}
+			nd := &NoWholeStoreDecl{Type: f[0], Line: l.line}
+			for _, w := range f[1:] {
+				nd.Props = append(nd.Props, strings.TrimPrefix(w, "@"))
+			}
+			db.NoWholeStore = append(db.NoWholeStore, nd)
 		case "covers":
 			cur = nil
 			// covers specfn pkg.Type @C20 except a b c
